@@ -21,10 +21,17 @@ def in_monitor() -> bool:
 
 
 class monitor_section:
+    """while a condition runs: contracts off, and the harness's own Decimal arithmetic in a local high-precision
+    context (the ambient context - the one the library computes under - is left alone)"""
+
     def __enter__(self):
+        import decimal
         _state.depth = getattr(_state, "depth", 0) + 1
+        self._lc = decimal.localcontext(oracle.HP)
+        self._lc.__enter__()
 
     def __exit__(self, *a):
+        self._lc.__exit__(*a)
         _state.depth -= 1
 
 
